@@ -88,7 +88,7 @@ def customStep (env : CharEnv) (L : Lexicon) (acc : Custom) (kv : Str × Str) : 
   let name := lower kv.1
   if !(Rx.isMatch env L.reCustom name) then .error { kind := .badCustomName, pattern := [], offset := 0 }
   else
-    let key := cssUnescape env L name
+    let key := lower (cssUnescape env L name)
     if acc.any (fun e => e.1 == key) then .error { kind := .customCollision, pattern := [], offset := 0 }
     else .ok (acc.set key (.src kv.2))
 
